@@ -447,7 +447,7 @@ def run(tier, seed, replay_cases=None):
         # failures on texts of the lexical forms first (they are the clearest witnesses)
         order = {"integer-exact": 0, "float-prefixed": 0, "bool": 0, "float-special": 0, "float-zero": 0, "format-parse": 0,
                  "integer-from-u64": 0, "float-from-u64": 0, "u64-print-parse": 0,
-                 "to-string-roundtrip": 0, "serialize-roundtrip": 0, "xml-string-roundtrip": 0}
+                 "to-string-roundtrip": 0, "serialize-roundtrip": 0, "xml-string-roundtrip": 0, "element-value": 0}
         unknown_fails.sort(key=lambda l: order.get(l.split(" ")[1], 1))
         prop_fail += unknown_fails
         ctx.coverage["oracle_failures_in_known_classes"] = {k: len(v) for k, v in known_hits.items()}
